@@ -152,14 +152,21 @@ def hotspot(ctx, f, cfg):
             cands.append(b)
     if not ctx.floor("C05.anchor", "hotspot concurrency checker (reads ParamsMetric.concurrency_counter, constructs Blocked)", len(cands), 1):
         return
-    b = cands[0]
+    b = f.view(f.raw(cands[0]))
     roles = [
         ("observed", ["field:ParamsMetric.concurrency_counter", "call:Atomic::<u64>::load"], []),
         ("limit", ["field:Rule.threshold"], []),
         ("limit", ["field:Rule.specific_items"], []),
     ]
-    cls = make_classifier(roles)
+    base_cls = make_classifier(roles)
+
+    def cls(atoms, op=None):
+        # the cell handed out by the counter cache: None = first sight of the value (is_none() / match / if-let alike)
+        if "discr" in atoms and any_atom(atoms, "call:add_if_absent") and not any_atom(atoms, "call:Atomic::<u64>::load"):
+            return "cell"
+        return base_cls(atoms, op)
     w = D.Walker(f, b, cls)
+    w.option_calls_as_disc = True
     blocked_bbs = {bb for bb, t, vs, c in blocked_sites(f, b)}
     pass_bbs = {bb for bb, t in b.calls() if callee_is(t, "TokenResult::new_pass")}
 
@@ -178,6 +185,8 @@ def hotspot(ctx, f, cfg):
         # first sight of a value (counter absent): opaque is_none -> pass; otherwise by comparison
         isn = [k for k in asg["opaque"] if "is_none" in k]
         if isn and asg["opaque"][isn[0]]:
+            return "pass"
+        if asg["disc"].get("cell") == 0:
             return "pass"
         r = D.rel_of(asg, "observed", "limit")
         if r is None:
